@@ -46,10 +46,20 @@ inductive Out
   | state (c : Coords) (t : Table)          -- `__getstate__`
 deriving DecidableEq, Repr, Inhabited
 
+/-- an operand that is NOT one of the shared objects: the result of a previous call (a freshly created point, or
+INFINITY); its fields live in the local state, reading them is not a step -/
+inductive Fresh
+  | shared                      -- the operand is the shared object named by `Loc.self` / `Loc.other`
+  | inf                         -- INFINITY
+  | pj (P : Curve.PJ)           -- a point object created by this thread
+deriving Repr, Inhabited
+
 /-- local variables of one method activation (one record type for all methods) -/
 structure Loc where
   self : Nat
   other : Nat := 0
+  selfFresh : Fresh := .shared
+  otherFresh : Fresh := .shared
   otherInf : Bool := false      -- the `other` argument is INFINITY (then `other` is meaningless)
   ca : Coords := (0, 0, 0)      -- snapshot(s) of `self.__coords`
   cb : Coords := (0, 0, 0)      -- snapshot of `other.__coords`
@@ -66,6 +76,10 @@ def Loc.obj (s : Loc) : Obj → Nat
   | .self => s.self
   | .other => s.other
 
+def Loc.fresh (s : Loc) : Obj → Fresh
+  | .self => s.selfFresh
+  | .other => s.otherFresh
+
 /-- the structured method language -/
 inductive M where
   | skip
@@ -76,6 +90,9 @@ inductive M where
   | ite (c : Loc → Bool) (t e : M)
   | ret (f : Loc → Res Out)                       -- `return <expr>` (the expression may raise)
   | call (o : Obj) (name : String) (body : M) (enter : Loc → Loc) (leave : Loc → Out → Loc)
+  | callR (o : Obj) (name : String) (body : M) (enter : Loc → Loc) (leave : Loc → Out → Loc)
+      -- a call on the RESULT of previous calls (which may be the shared object `o` itself: then `enter` leaves
+      -- `selfFresh = .shared`, otherwise the operand is local)
   | loop (body : M)                               -- only to mirror a skeleton with accesses in a loop (unused)
 
 abbrev P := Prog Cell Val (Res Out)
@@ -86,16 +103,32 @@ def bindRes {α : Type} (r : Res α) (kx : PyErr → P) (k : α → P) : P :=
   | .ok a => k a
   | .error e => kx e
 
+/-- the fields of an operand that is local to the thread -/
+def freshVal (fr : Fresh) (f : Fld) : Val :=
+  match f with
+  | .pre => .table []
+  | .coords => match fr with
+    | .pj P => .coords (P.x, P.y, P.z)
+    | _ => .coords (0, 0, 1)
+
 /-- semantics: `kx` = an exception escapes, `kr` = the activation returns, `k` = fall through -/
 def den : M → Loc → (PyErr → P) → (Loc → P) → (Loc → P) → P
   | .skip, s, _, _, k => k s
   | .seq a b, s, kx, kr, k => den a s kx kr (fun s' => den b s' kx kr k)
-  | .load o f bind, s, _, _, k => .read (s.obj o, f) (fun v => k (bind s v))
-  | .store o f val, s, _, _, k => .write (s.obj o, f) (val s) (k s)
+  | .load o f bind, s, _, _, k =>
+      match s.fresh o with
+      | .shared => .read (s.obj o, f) (fun v => k (bind s v))
+      | fr => k (bind s (freshVal fr f))
+  | .store o f val, s, _, _, k =>
+      match s.fresh o with
+      | .shared => .write (s.obj o, f) (val s) (k s)
+      | _ => k s          -- (no modelled method stores into a local operand)
   | .pure f, s, kx, _, k => bindRes (f s) kx k
   | .ite c t e, s, kx, kr, k => if c s then den t s kx kr k else den e s kx kr k
   | .ret f, s, kx, kr, _ => bindRes (f s) kx (fun o => kr { s with out := o })
   | .call o _ body enter leave, s, kx, _, k =>
+      den body { enter s with self := s.obj o } kx (fun t => k (leave s t.out)) (fun t => k (leave s t.out))
+  | .callR o _ body enter leave, s, kx, _, k =>
       den body { enter s with self := s.obj o } kx (fun t => k (leave s t.out)) (fun t => k (leave s t.out))
   | .loop _, s, _, _, k => k s
 
@@ -113,6 +146,7 @@ def flat : M → List Tok
   | .ite _ t e => [.ifS] ++ flat t ++ [.ifE] ++ flat e ++ [.ifX]
   | .ret _ => [.ret]
   | .call o name _ _ _ => [.call o name]
+  | .callR o name _ _ _ => [.callR o name]
   | .loop body => [.loopS] ++ flat body ++ [.loopX]
 
 /-- every call site inlines a body whose skeleton is the (generated) skeleton of the method it names -/
@@ -125,6 +159,7 @@ def callsOk (tbl : String → List Tok) : M → Bool
   | .ite _ t e => callsOk tbl t && callsOk tbl e
   | .ret _ => true
   | .call _ name body _ _ => (flat body == tbl name) && callsOk tbl body
+  | .callR _ name body _ _ => (flat body == tbl name) && callsOk tbl body
   | .loop body => callsOk tbl body
 
 infixr:60 " ;; " => M.seq
@@ -154,6 +189,22 @@ variable (info : Nat → ObjInfo)
 /-- the value of `self` as seen through the snapshot `ca` -/
 def selfPJ (s : Loc) : Curve.PJ := mkPJ (info s.self) s.ca
 def otherPJ (s : Loc) : Curve.PJ := mkPJ (info s.other) s.cb
+
+/-- immutable fields of an operand that may be local -/
+def infoOf (s : Loc) (o : Obj) : ObjInfo :=
+  match s.fresh o with
+  | .pj P => ⟨P.curve, P.order, P.generator⟩
+  | _ => info (s.obj o)
+
+def selfPJ' (s : Loc) : Curve.PJ := mkPJ (infoOf info s .self) s.ca
+def otherPJ' (s : Loc) : Curve.PJ := mkPJ (infoOf info s .other) s.cb
+
+/-- `return self` / `return other`: the shared object itself, or the local value -/
+def retOperand (s : Loc) (o : Obj) : Out :=
+  match s.fresh o with
+  | .shared => .obj (s.obj o)
+  | .inf => .pt .infinity
+  | .pj P => .pt (.jac P)
 
 /-! ## the methods (same order of accesses, tests and returns as the source) -/
 
@@ -200,27 +251,29 @@ def mEq : M :=
     (.call .other "x" (mX info) (fun s => { self := s.other }) (fun s _ => s) ;;
      .call .other "y" (mY info) (fun s => { self := s.other }) (fun s _ => s))
     (.ite (fun _ => true) loadB (.ret fun _ => .ok .none)) ;;
-  .ite (fun s => !((info s.self).curve.eqv (info s.other).curve)) (.ret fun _ => .ok (.bool false)) .skip ;;
+  .ite (fun s => !((infoOf info s .self).curve.eqv (infoOf info s .other).curve)) (.ret fun _ => .ok (.bool false)) .skip ;;
   .ret fun s =>
-    let p := (info s.self).curve.p
+    let p := (infoOf info s .self).curve.p
     .ok (.bool (Curve.coordsEq p s.ca.1 s.ca.2.1 s.ca.2.2 s.cb.1 s.cb.2.1 s.cb.2.2))
 
 def isTrue : Out → Bool
   | .bool b => b
   | _ => false
 
-/-- `__add__(other)` for a `PointJacobi` `other` -/
+/-- `__add__(other)`; the operands are shared objects or local values (`selfFresh` / `otherFresh`) -/
 def mAdd : M :=
-  .call .self "__eq__" (mEq info) (fun s => { self := s.self, otherInf := true }) (fun s o => { s with r1 := o }) ;;
-  .ite (fun s => isTrue s.r1) (.ret fun s => .ok (.obj s.other)) .skip ;;
-  .call .other "__eq__" (mEq info) (fun s => { self := s.other, otherInf := true }) (fun s o => { s with r1 := o }) ;;
-  .ite (fun s => isTrue s.r1) (.ret fun s => .ok (.obj s.self)) .skip ;;
-  .ite (fun s => !((info s.self).curve.eqv (info s.other).curve)) (.ret fun _ => .error .valueError) .skip ;;
+  .call .self "__eq__" (mEq info) (fun s => { self := s.self, otherInf := true, selfFresh := s.selfFresh })
+    (fun s o => { s with r1 := o }) ;;
+  .ite (fun s => isTrue s.r1) (.ret fun s => .ok (retOperand s .other)) .skip ;;
+  .call .other "__eq__" (mEq info) (fun s => { self := s.other, otherInf := true, selfFresh := s.otherFresh })
+    (fun s o => { s with r1 := o }) ;;
+  .ite (fun s => isTrue s.r1) (.ret fun s => .ok (retOperand s .self)) .skip ;;
+  .ite (fun s => !((infoOf info s .self).curve.eqv (infoOf info s .other).curve)) (.ret fun _ => .error .valueError) .skip ;;
   loadA ;; loadB ;;
-  .ite (fun s => match Curve.pjAddCore (selfPJ info s) (otherPJ info s) with
+  .ite (fun s => match Curve.pjAddCore (selfPJ' info s) (otherPJ' info s) with
       | .ok .infinity => true
       | _ => false) (.ret fun _ => .ok (.pt .infinity)) .skip ;;
-  .ret fun s => (Curve.pjAddCore (selfPJ info s) (otherPJ info s)).map .pt
+  .ret fun s => (Curve.pjAddCore (selfPJ' info s) (otherPJ' info s)).map .pt
 
 /-- `_maybe_precompute()` -/
 def mMaybePrecompute : M :=
@@ -295,6 +348,71 @@ def mFromAffine : M :=
     match s.r1, s.r2 with
     | .int x, .int y => .ok (.pt (.jac ⟨(info s.other).curve, x, y, 1, (info s.other).order, s.ka != 0⟩))
     | _, _ => .error .typeError
+
+/-- how the result of a call enters a later operation as an operand -/
+def freshOf : Out → Fresh
+  | .pt (.jac P) => .pj P
+  | .pt .infinity => .inf
+  | .pt (.aff A) => .pj (Curve.pjFromAffine A)
+  | _ => .shared
+
+/-- `other_mul % order` of `mul_add` -/
+def redMA (i : ObjInfo) (k : Int) : Int :=
+  match Curve.truthy i.order with
+  | some o => pmod k o
+  | none => k
+
+/-- `pApB` of `mul_add` on the scaled coordinates -/
+def pApB (i : ObjInfo) (c1 c2 : Coords) : Coords :=
+  Gen.k_add c1.1 c1.2.1 c1.2.2 c2.1 c2.2.1 c2.2.2 i.curve.p i.curve.a
+
+/-- the joint NAF loop of `mul_add` on the scaled coordinates `c1`, `c2` -/
+def mulAddLoop (i : ObjInfo) (c1 c2 : Coords) (sm om : Int) : Curve.Pt :=
+  let p := i.curve.p
+  let a := i.curve.a
+  let mAmB := Gen.k_add c1.1 (-c1.2.1) c1.2.2 c2.1 (-c2.2.1) c2.2.2 p a
+  let pAmB := Gen.k_add c1.1 c1.2.1 c1.2.2 c2.1 (-c2.2.1) c2.2.2 p a
+  let mApB := Gen.k_add c1.1 (-c1.2.1) c1.2.2 c2.1 c2.2.1 c2.2.2 p a
+  let nafs := Curve.padNafs (Curve.naf sm).reverse (Curve.naf om).reverse
+  let acc := (nafs.1.zip nafs.2).foldl (Curve.mulAddStep p a c1 c2 mAmB pAmB mApB (pApB i c1 c2)) (0, 0, 1)
+  Curve.coordsOut i.curve i.order acc
+
+/-- `self * self_mul + other * other_mul` (the two fall-back paths of `mul_add`): the sum is taken of the RESULTS, which
+are the shared objects themselves when a multiplier is 1 -/
+def mMulSum : M :=
+  .call .self "__mul__" (mMul info) (fun s => { self := s.self, ka := s.ka }) (fun s o => { s with r1 := o }) ;;
+  .call .other "__mul__" (mMul info) (fun s => { self := s.other, ka := s.kb }) (fun s o => { s with r2 := o }) ;;
+  .callR .self "__add__" (mAdd info)
+    (fun s => { self := s.self, other := s.other, selfFresh := freshOf s.r1, otherFresh := freshOf s.r2 })
+    (fun s o => { s with r1 := o }) ;;
+  .ret fun s => .ok s.r1
+
+/-- the main path of `mul_add` (after the table tests): reduce the multipliers, scale both points, joint NAF loop -/
+def mMulAddTail : M :=
+  .pure (fun s => .ok { s with ka := redMA (info s.self) s.ka, kb := redMA (info s.self) s.kb }) ;;
+  .call .self "scale" (mScale info) (fun s => { self := s.self }) (fun s _ => s) ;;
+  loadA ;;
+  .call .other "scale" (mScale info) (fun s => { self := s.other }) (fun s _ => s) ;;
+  loadB ;;
+  .ite (fun s => (pApB (info s.self) s.ca s.cb).2.1 == 0 || (pApB (info s.self) s.ca s.cb).2.2 == 0) (mMulSum info) .skip ;;
+  .ite (fun s => mulAddLoop (info s.self) s.ca s.cb s.ka s.kb == .infinity) (.ret fun _ => .ok (.pt .infinity)) .skip ;;
+  .ret fun s => .ok (.pt (mulAddLoop (info s.self) s.ca s.cb s.ka s.kb))
+
+/-- `mul_add(self_mul, other, other_mul)` for a `PointJacobi` `other` (`ka`, `kb` = the multipliers) -/
+def mMulAdd : M :=
+  .call .other "__eq__" (mEq info) (fun s => { self := s.other, otherInf := true }) (fun s o => { s with r1 := o }) ;;
+  .ite (fun s => isTrue s.r1 || s.kb == 0)
+    (.call .self "__mul__" (mMul info) (fun s => { self := s.self, ka := s.ka }) (fun s o => { s with r1 := o }) ;;
+     .ret fun s => .ok s.r1) .skip ;;
+  .ite (fun s => s.ka == 0)
+    (.call .other "__mul__" (mMul info) (fun s => { self := s.other, ka := s.kb }) (fun s o => { s with r1 := o }) ;;
+     .ret fun s => .ok s.r1) .skip ;;
+  .call .self "_maybe_precompute" (mMaybePrecompute info) (fun s => { self := s.self }) (fun s _ => s) ;;
+  .call .other "_maybe_precompute" (mMaybePrecompute info) (fun s => { self := s.other }) (fun s _ => s) ;;
+  loadTA ;;
+  .ite (fun s => !s.ta.isEmpty) loadTB .skip ;;
+  .ite (fun s => !s.ta.isEmpty && !s.tb.isEmpty) (mMulSum info) .skip ;;
+  mMulAddTail info
 
 /-- the value of a call result that is a point: a fresh point, or one of the shared objects as currently stored -/
 def outPt (heapC : Nat → Coords) : Out → Curve.Pt
